@@ -15,7 +15,7 @@ import subprocess
 import sys
 import tempfile
 
-from .absmodel import NONE, as_dict, norm_sig
+from .absmodel import CHECK_MIN, NONE, as_dict, norm_sig
 from .common import REPO, VERIF, scratch_dir
 
 PY = '/venv/bin/python'
@@ -82,6 +82,19 @@ def render_models(sig, names, app):
                     kw += ', condition=models.Q(%s__gt=0)' % names.field(ix['cond'])
                 parts.append('models.Index(%s)' % kw)
             meta.append('        indexes = [%s]' % ', '.join(parts))
+        if ms.get('cons'):
+            parts = []
+            for c in ms['cons']:
+                cond = c.get('cond', NONE)
+                if c['kind'] == 'check':
+                    parts.append('models.CheckConstraint(check=models.Q(%s__gte=%d), name=%r)'
+                                 % (names.field(cond), CHECK_MIN, c['name']))
+                else:
+                    kw = 'fields=%r, name=%r' % ([names.field(x) for x in c['fields']], c['name'])
+                    if cond not in (NONE, None):
+                        kw += ', condition=models.Q(%s__gt=0)' % names.field(cond)
+                    parts.append('models.UniqueConstraint(%s)' % kw)
+            meta.append('        constraints = [%s]' % ', '.join(parts))
         if not body:
             body.append('    pass')
         lines += body
@@ -136,6 +149,30 @@ def render_mutation(mu, names, palette=None):
     if k == 'DelM':
         return 'DeleteModel(%r)' % names.model(mu['m'])
     if k == 'Meta':
+        if mu['prop'] == 'constraints':
+            parts = []
+            for c in mu['ival']:
+                cond = c.get('cond', NONE)
+                if c['kind'] == 'check':
+                    parts.append("{'type': models.CheckConstraint, 'name': %r, 'check': models.Q(%s__gte=%d)}"
+                                 % (c['name'], names.field(cond), CHECK_MIN))
+                else:
+                    d = "{'type': models.UniqueConstraint, 'name': %r, 'fields': %r" % (
+                        c['name'], [names.field(x) for x in c['fields']])
+                    if cond not in (NONE, None):
+                        d += ", 'condition': models.Q(%s__gt=0)" % names.field(cond)
+                    parts.append(d + '}')
+            return 'ChangeMeta(%r, %r, [%s])' % (names.model(mu['m']), 'constraints', ', '.join(parts))
+        if mu['prop'] == 'indexes':
+            parts = []
+            for ix in mu['ival']:
+                d = "{'fields': %r" % [names.field(x) for x in ix['fields']]
+                if ix.get('name', NONE) != NONE:
+                    d += ", 'name': %r" % ix['name']
+                if ix.get('cond', NONE) not in (NONE, None):
+                    d += ", 'condition': models.Q(%s__gt=0)" % names.field(ix['cond'])
+                parts.append(d + '}')
+            return 'ChangeMeta(%r, %r, [%s])' % (names.model(mu['m']), 'indexes', ', '.join(parts))
         if mu['prop'] in ('unique_together', 'index_together'):
             val = [tuple(names.field(x) for x in t) for t in mu['val']]
         else:
